@@ -99,37 +99,37 @@ pub proof fn lemma_idents_split(s: Seq<char>)
         assert forall|k: int| 0 <= k < parts.len() implies g_idents(s).unwrap().0[k] == classify_all(parts)[k] by { if k > 0 { assert(parts[k] == rest[k - 1]); } }
     }
 }
-pub proof fn lemma_c05_accepted_text_is_a_version(s: Seq<char>)
-    requires ref_parse(s) is Some,
+pub proof fn lemma_lead_split(s: Seq<char>)
     ensures
-        exists|lead: Seq<char>, ma: Seq<char>, mi: Seq<char>, pa: Seq<char>, hy: bool, pre: Seq<Seq<char>>, build: Seq<Seq<char>>, trail: Seq<char>|
-            #[trigger] loose_text(lead, ma, mi, pa, hy, pre, build, trail) == s
-            && lead_ok(lead) && all_blank(trail) && wf_num(ma) && wf_num(mi) && wf_num(pa) && wf_ids(pre) && wf_ids(build)
-            && ref_parse(s) == Some(VSpec { major: dec_val(ma), minor: dec_val(mi), patch: dec_val(pa), pre: classify_all(pre), build: classify_all(build) }),
+        s == s.take(s.len() - skip_ws(skip_v(s)).len()) + skip_ws(skip_v(s)),
+        lead_ok(s.take(s.len() - skip_ws(skip_v(s)).len())),
 {
-    let e = Seq::<Seq<char>>::empty();
-    assert(classify_all(e) =~= Seq::<ISpec>::empty());
     let s1 = skip_v(s);
     let s2 = skip_ws(s1);
     lemma_span_props(s1, |c: char| ws_char(c));
     let lead = s.take(s.len() - s2.len());
-    assert(s =~= lead + s2 && lead_ok(lead)) by {
-        let w = ws_span(s1);
-        if s1 == s {
-            assert(lead =~= s.take(w));
-            assert(s =~= s.take(w) + s.skip(w));
-        } else {
-            assert(s1 == s.skip(1));
-            assert(s2 =~= s.skip(1 + w));
-            assert(lead =~= s.take(1 + w));
-            assert(s =~= s.take(1 + w) + s.skip(1 + w));
-            assert(lead.skip(1) =~= s1.take(w));
-        }
+    let w = ws_span(s1);
+    if s1 == s {
+        assert(lead =~= s.take(w));
+        assert(s =~= s.take(w) + s.skip(w));
+    } else {
+        assert(s1 == s.skip(1));
+        assert(s2 =~= s.skip(1 + w));
+        assert(lead =~= s.take(1 + w));
+        assert(s =~= s.take(1 + w) + s.skip(1 + w));
+        assert(lead.skip(1) =~= s1.take(w));
     }
-    // core
-    lemma_number_split(s2);
-    let ma = num_text(s2);
-    let r1 = g_number(s2).unwrap().1;
+}
+pub proof fn lemma_core_split(s: Seq<char>)
+    requires g_core(s) is Some,
+    ensures
+        exists|ma: Seq<char>, mi: Seq<char>, pa: Seq<char>|
+            #[trigger] core_text(ma, mi, pa, g_core(s).unwrap().1) == s && wf_num(ma) && wf_num(mi) && wf_num(pa)
+            && g_core(s).unwrap().0 == (dec_val(ma), dec_val(mi), dec_val(pa)),
+{
+    lemma_number_split(s);
+    let ma = num_text(s);
+    let r1 = g_number(s).unwrap().1;
     lemma_eat_split(r1, '.');
     let r2 = eat(r1, '.').unwrap();
     lemma_number_split(r2);
@@ -139,27 +139,57 @@ pub proof fn lemma_c05_accepted_text_is_a_version(s: Seq<char>)
     let r4 = eat(r3, '.').unwrap();
     lemma_number_split(r4);
     let pa = num_text(r4);
-    let r5 = g_number(r4).unwrap().1;
-    // extras
-    let trail = g_extras(r5).1;
-    let (hy, pre, after_pre) = match g_pre(r5) {
-        Some((p, r)) => (eat(r5, '-') is Some, (match eat(r5, '-') { Some(x) => parts_of(x), None => parts_of(r5) }), r),
-        None => (false, e, r5),
-    };
-    if g_pre(r5) is Some {
-        match eat(r5, '-') {
-            Some(x) => { lemma_eat_split(r5, '-'); lemma_idents_split(x); },
-            None => { lemma_idents_split(r5); },
+    assert(core_text(ma, mi, pa, g_core(s).unwrap().1) == s);
+}
+pub open spec fn core_text(ma: Seq<char>, mi: Seq<char>, pa: Seq<char>, rest: Seq<char>) -> Seq<char> {
+    ma + (ch1('.') + (mi + (ch1('.') + (pa + rest))))
+}
+pub proof fn lemma_extras_split(r: Seq<char>)
+    ensures
+        exists|hy: bool, pre: Seq<Seq<char>>, build: Seq<Seq<char>>|
+            #[trigger] extras_text(hy, pre, build, g_extras(r).1) == r && wf_ids(pre) && wf_ids(build)
+            && g_extras(r).0 == (classify_all(pre), classify_all(build)),
+{
+    let e = Seq::<Seq<char>>::empty();
+    assert(classify_all(e) =~= Seq::<ISpec>::empty());
+    let trail = g_extras(r).1;
+    let hy = g_pre(r) is Some && eat(r, '-') is Some;
+    let pre = if g_pre(r) is Some { match eat(r, '-') { Some(x) => parts_of(x), None => parts_of(r) } } else { e };
+    let after_pre = match g_pre(r) { Some((p, x)) => x, None => r };
+    if g_pre(r) is Some {
+        match eat(r, '-') {
+            Some(x) => { lemma_eat_split(r, '-'); lemma_idents_split(x); },
+            None => { lemma_idents_split(r); },
         }
     }
-    assert(r5 =~= pre_text_h(hy, pre) + after_pre);
-    assert(wf_ids(pre));
-    let build = match g_build(after_pre) { Some((b, r)) => parts_of(eat(after_pre, '+').unwrap()), None => e };
+    assert(r =~= pre_text_h(hy, pre) + after_pre);
+    let build = if g_build(after_pre) is Some { parts_of(eat(after_pre, '+').unwrap()) } else { e };
     if g_build(after_pre) is Some {
         lemma_eat_split(after_pre, '+');
         lemma_idents_split(eat(after_pre, '+').unwrap());
     }
     assert(after_pre =~= build_text(build) + trail);
-    assert(wf_ids(build));
-    assert(s =~= loose_text(lead, ma, mi, pa, hy, pre, build, trail));
+    assert(extras_text(hy, pre, build, trail) =~= r);
+}
+pub open spec fn extras_text(hy: bool, pre: Seq<Seq<char>>, build: Seq<Seq<char>>, trail: Seq<char>) -> Seq<char> {
+    pre_text_h(hy, pre) + (build_text(build) + trail)
+}
+pub proof fn lemma_c05_accepted_text_is_a_version(s: Seq<char>)
+    requires ref_parse(s) is Some,
+    ensures
+        exists|lead: Seq<char>, ma: Seq<char>, mi: Seq<char>, pa: Seq<char>, hy: bool, pre: Seq<Seq<char>>, build: Seq<Seq<char>>, trail: Seq<char>|
+            #[trigger] loose_text(lead, ma, mi, pa, hy, pre, build, trail) == s
+            && lead_ok(lead) && all_blank(trail) && wf_num(ma) && wf_num(mi) && wf_num(pa) && wf_ids(pre) && wf_ids(build)
+            && ref_parse(s) == Some(VSpec { major: dec_val(ma), minor: dec_val(mi), patch: dec_val(pa), pre: classify_all(pre), build: classify_all(build) }),
+{
+    let s2 = skip_ws(skip_v(s));
+    let lead = s.take(s.len() - s2.len());
+    lemma_lead_split(s);
+    lemma_core_split(s2);
+    let r5 = g_core(s2).unwrap().1;
+    let (ma, mi, pa) = choose|ma: Seq<char>, mi: Seq<char>, pa: Seq<char>| #[trigger] core_text(ma, mi, pa, r5) == s2 && wf_num(ma) && wf_num(mi) && wf_num(pa) && g_core(s2).unwrap().0 == (dec_val(ma), dec_val(mi), dec_val(pa));
+    lemma_extras_split(r5);
+    let trail = g_extras(r5).1;
+    let (hy, pre, build) = choose|hy: bool, pre: Seq<Seq<char>>, build: Seq<Seq<char>>| #[trigger] extras_text(hy, pre, build, trail) == r5 && wf_ids(pre) && wf_ids(build) && g_extras(r5).0 == (classify_all(pre), classify_all(build));
+    assert(loose_text(lead, ma, mi, pa, hy, pre, build, trail) == s);
 }
